@@ -4,7 +4,7 @@
 From Verif Require Import Base.Prelude Base.StrUtil Base.Index Base.NdArr Base.PyRange
   Model.MapSpec Model.MapSpecSpec Model.MapRun Model.SymBody.
 From Verif Require Import Model.MapDenote Proofs.MapRunFacts.
-From Verif Require Import Proofs.IndexFacts Proofs.PyRangeFacts Proofs.MapResumeFacts Proofs.MapValuesFacts Proofs.MapResumeDenote.
+From Verif Require Import Proofs.IndexFacts Proofs.PyRangeFacts Proofs.MapResumeFacts Proofs.MapValuesFacts Proofs.MapResumeDenote Proofs.FixedSpecFacts.
 From Verif Require Import Model.MapResume Model.FixedSpec.
 
 (* ---------------------------------------------------------------- Python slices / ints (Base/PyRange.v) *)
@@ -266,6 +266,41 @@ Theorem C06_out_of_range_rejected_partial : forall d inputs p name axs k a sel a
   exists e', validate_fixed (Some d) inputs p = Err e'.
 Proof. exact out_of_range_rejected. Qed.
 Print Assumptions C06_out_of_range_rejected_partial.
+
+(* FULL declarative versions under consistent axis names (every array is spelled with the same axis name at the same
+   position in all MapSpecs – what validate_consistent_axes enforces at construction): *)
+Theorem C06_reduced_axis_rejected : forall p, consistent_axes (arrayspecs p) ->
+  forall d inputs a, In a (map fst d) -> axis_reduced p a = true -> exists e, validate_fixed (Some d) inputs p = Err e.
+Proof. exact reduced_axis_rejected_decl. Qed.
+Print Assumptions C06_reduced_axis_rejected.
+
+Theorem C06_out_of_range_rejected : forall p, consistent_axes (arrayspecs p) ->
+  forall d inputs a name k sel arr n e,
+  In (name, k) (carriers_of p a) -> dict_get d a = Some sel ->
+  dict_get inputs name = Some (VA arr) -> nth_error (shp arr) k = Some n -> fsel_indices sel n = Err e ->
+  exists e', validate_fixed (Some d) inputs p = Err e'.
+Proof. exact out_of_range_rejected_decl. Qed.
+Print Assumptions C06_out_of_range_rejected.
+
+(* bad_request_rejected: a request that the declarative classification of Model/FixedSpec.v calls Rejected (unknown
+   axis, reduced axis, or index out of range on an axis of a supplied input) is refused by _validate_fixed_indices –
+   and therefore (C06_bad_request_rejected_before_any_call) before any user function is called *)
+Theorem C06_bad_request_rejected : forall p, consistent_axes (arrayspecs p) ->
+  forall inputs (d : fixed), NoDup (map fst d) -> NoDup (map fst inputs) ->
+  request_status p inputs (init_shapes inputs) d = Rejected ->
+  exists e, validate_fixed (Some d) inputs p = Err e.
+Proof. exact rejected_status_rejected. Qed.
+Print Assumptions C06_bad_request_rejected.
+
+Example ex_consistent : consistent_axes (arrayspecs [ex_f; ex2_g]).
+Proof.
+  intros sp1 sp2 k x y H1 H2 _ K1 K2. cbn in H1, H2.
+  destruct H1 as [<-|[<-|[]]], H2 as [<-|[<-|[]]]; destruct k as [|[|k]]; cbn in K1, K2; congruence.
+Qed.
+Example ex_rejected_status :
+  request_status [ex_f; ex2_g] ex_inputs (init_shapes ex_inputs) [(s "i", FInt 0%Z)] = Rejected   (* i is reduced by g *)
+  /\ request_status [ex_f] ex_inputs (init_shapes ex_inputs) [(s "i", FInt 7%Z)] = Rejected.
+Proof. split; vm_compute; reflexivity. Qed.
 
 Example ex_rejected :
   map_run_sel sym_body [ex_f] ex_inputs [] (Some [(s "i", FInt 3%Z)]) empty_store = RErr IndexError []
